@@ -194,7 +194,9 @@ class Scope(object):
         self.parent.annotations.update(self.annotations)
       else:
         # TODO(mdan): This is not accurate.
-        self.parent.read.update(self.read - self.bound)
+        # Names declared nonlocal are bound elsewhere: reading them reads the
+        # enclosing function's variable, like any other free variable.
+        self.parent.read.update(self.read - (self.bound - self.nonlocals))
         self.parent.annotations.update(self.annotations - self.bound)
     self.is_final = True
 
